@@ -193,8 +193,9 @@ __CPROVER_ensures(ADV_V(__CPROVER_return_value, a, -, -2) || ADV_V(__CPROVER_ret
 
 /* a - b: the value difference in ticks, truncated toward zero.  The caller names the difference:
  * sub_ds seconds + (sub_t ticks + sub_rem ns), |sub_rem| < 100 with the sign of the nanosecond difference
- * (every pair of operands has exactly one such decomposition); the result is sub_ds * 10^7 + sub_t ticks, and
- * it is EXACT (no truncation) when the operands' nanoseconds differ by a multiple of the 100 ns grain. */
+ * (every pair of operands has exactly one such decomposition); the result is sub_ds * 10^7 + sub_t ticks (the
+ * product is named by the ghost sub_m, fixed in the precondition), and it is EXACT (no truncation: sub_rem == 0)
+ * when the operands' nanoseconds differ by a multiple of the 100 ns grain; in nanoseconds: lemma_ring (R2). */
 #define SUB_S_MAX ((int64_t)1 << 38)
 #define SUB_REQ(a, b) (CANON(a) && CANON(b) && (a).seconds_ > -SUB_S_MAX && (a).seconds_ < SUB_S_MAX && (b).seconds_ > -SUB_S_MAX && (b).seconds_ < SUB_S_MAX \
    && (a).seconds_ - (b).seconds_ == G.sub_ds && G.sub_m == G.sub_ds * TPS && G.sub_t > -2 * TPS && G.sub_t < 2 * TPS && G.sub_rem > -NPT && G.sub_rem < NPT \
